@@ -225,7 +225,8 @@ func runC17(c *mon.Ctx) {
 							"double": 2 * (base | rnd), "negdouble": -(2 * (base | rnd)), "odd": base | rnd | 1,
 							"evenmixed": (base | rnd) &^ 1,
 						}
-						for name, D := range ds {
+						for _, name := range sortedKeys(ds) {
+							D := ds[name]
 							both(c17target(D, rng), fmt.Sprintf("b%d=%02x/%s", blk, val, name))
 						}
 					}
